@@ -4,6 +4,7 @@ import (
 	"fmt"
 	"os"
 	"runtime/pprof"
+	"strings"
 
 	"golang.org/x/tools/go/ssa"
 	"sort"
@@ -29,6 +30,11 @@ func main() {
 		fmt.Printf("loaded in %.1fs\n", ld.LoadSec)
 		j := &Job{ID: os.Args[3], Pkg: os.Args[2], Entry: os.Args[3], Workers: 8, IntMode: os.Getenv("SYMGO_INT") != "", PanicOK: os.Getenv("SYMGO_PANICOK") != ""}
 		j.OneShot = os.Getenv("SYMGO_ONESHOT") != ""
+		if gc := os.Getenv("SYMGO_GOINLINECALLS"); gc != "" {
+			j.GoInlineCalls = strings.Split(gc, ",")
+			j.TimersNeverFire = true
+			j.BlockedOK = true
+		}
 		if os.Getenv("SYMGO_GOINLINE") != "" {
 			j.GoInline = func(string) bool { return true }
 		}
